@@ -87,11 +87,15 @@ class _Env:
 
 
 class Ref:
-    def __init__(self, bodies, k=-1, ieh=None):
+    def __init__(self, bodies, k=-1, ieh=None, strict_pending=False, buffer_filters=()):
         self.bodies = bodies
         self.k = k
         self.cnt = 0
         self.ieh = ieh            # include_error_handler: None | True | False
+        # C05: the callee of a <%call expr="f(args)"> is f - with `strict_pending` the calls made while the
+        # *arguments* are evaluated do not see the pending caller (default: they do, as mako's nextcaller)
+        self.strict_pending = strict_pending
+        self.buffer_filters = list(buffer_filters)    # Template(buffer_filters=[...]): ids of flt<i>
         self.cur = []             # ids of the nodes being interpreted (dynamic chain)
         self.raise_stack = None   # that chain when the planted exception was raised (for handler placement)
 
@@ -136,11 +140,13 @@ class Ref:
             return str(env.loops[-1][0]), ""
         if k == "probe":
             return "%d.%d.%d" % (env.nb, env.nf, 1 if pending is not None else 0), ""
+        if k == "cprobe":
+            return "", ""
         if k in ("call", "capture"):
             d = env.defs.get(e[1])
             if d is None:
                 raise _Abort(TemplateError("name d%d" % e[1]), "")
-            args, o = self.args(e[2], env, pending)
+            args, o = self.args(e[2], env, None if self.strict_pending else pending)
             if k == "call":
                 try:
                     v, o2 = self.invoke(d, args, env, pending)
@@ -158,7 +164,7 @@ class Ref:
             if c is None or e[1] not in c.callables:
                 raise _Abort(TemplateError("no caller"), "")
             d = c.callables[e[1]]
-            args, o = self.args(e[2], env, pending)
+            args, o = self.args(e[2], env, None if self.strict_pending else pending)
             try:
                 v, o2 = self.invoke(d, args, env, None)
             except _Abort as x:
@@ -209,6 +215,9 @@ class Ref:
             self.tick()
             out = "%d(%s)" % (f, out)
         if fl["buffered"]:
+            for f in self.buffer_filters:      # "a buffered def returns its content (after buffer_filters)"
+                self.tick()
+                out = "%d(%s)" % (f, out)
             res = (out, "")
         else:
             res = ("", out)
